@@ -2,7 +2,9 @@
 mod alloc;
 mod env;
 mod hashseed;
+mod props;
 mod rng;
+mod runner;
 mod scenario;
 mod trace;
 mod wire;
@@ -11,35 +13,92 @@ mod world;
 #[global_allocator]
 static GLOBAL: alloc::Counting = alloc::Counting;
 
-use scenario::*;
+use props::Tier;
+use std::path::Path;
 
-fn smoke() -> Scenario {
-    let mut s = Scenario::new("SMOKE", "smoke", 7);
-    s.duts.push(dut_v4(1, 10, 0));
-    s.duts.push(dut_v4(1, 11, 0));
-    s.horizon_ms = 60_000;
-    s.op(0, Op::Monitor { d: 0, slot: 1 });
-    s.op(
-        10,
-        Op::Register {
-            d: 0,
-            svc: SvcSpec {
-                ty: "_test._udp.local.".into(),
-                instance: "inst".into(),
-                host: "hosta.local.".into(),
-                addrs: vec!["192.168.1.10".into()],
-                port: 1234,
-                txt: vec![("k".into(), Some(b"v".to_vec()))],
-                addr_auto: false,
-                probe: true,
-                intfs: None,
-                link_local_only: false,
-                txt_via: None,
-            },
-        },
+pub fn print_trace(scn: &scenario::Scenario, tr: &trace::Trace) {
+    println!("scenario {} family={} seed={:x} duts={} peers={} ops={} horizon={}ms", scn.prop, scn.family, scn.seed, scn.duts.len(), scn.peers.len(), scn.ops.len(), scn.horizon_ms);
+    #[derive(Clone)]
+    enum L {
+        Op(usize),
+        Tx(usize),
+        Rx(usize),
+        Ev(usize),
+        Api(usize),
+        Fatal(usize),
+    }
+    let mut lines: Vec<(u64, u8, L)> = vec![];
+    for (i, t) in tr.op_times.iter().enumerate() {
+        if let Some(t) = t {
+            lines.push((*t, 0, L::Op(i)));
+        }
+    }
+    for x in &tr.tx {
+        lines.push((x.t, 3, L::Tx(x.idx)));
+    }
+    for r in &tr.rx {
+        if let Some(t) = r.t_read {
+            lines.push((t, 2, L::Rx(r.id)));
+        }
+    }
+    for (i, e) in tr.events.iter().enumerate() {
+        lines.push((e.t, 4, L::Ev(i)));
+    }
+    for (i, a) in tr.api.iter().enumerate() {
+        if a.outcome != trace::ApiOutcome::Ok {
+            lines.push((a.t, 1, L::Api(i)));
+        }
+    }
+    for (i, f) in tr.fatal.iter().enumerate() {
+        lines.push((f.t, 5, L::Fatal(i)));
+    }
+    lines.sort_by_key(|l| (l.0, l.1));
+    let max = std::env::var("VERIF_TRACE_LINES").ok().and_then(|s| s.parse().ok()).unwrap_or(400usize);
+    for (t, _, l) in lines.iter().take(max) {
+        match l {
+            L::Op(i) => println!("{t:>9} op    {}", runner::short_op(&scn.ops[*i].op)),
+            L::Tx(i) => {
+                let x = &tr.tx[*i];
+                println!(
+                    "{t:>9} tx    d{} if{:?} {} -> {} {}{}",
+                    x.d,
+                    x.if_index,
+                    if x.v4 { "v4" } else { "v6" },
+                    x.dest,
+                    x.msg.as_ref().map(wire::summarize).unwrap_or_else(|| "<unparsable>".into()),
+                    x.malformed.as_ref().map(|m| format!(" MALFORMED({m})")).unwrap_or_default()
+                );
+            }
+            L::Rx(i) => {
+                let r = &tr.rx[*i];
+                println!(
+                    "{t:>9} rx    d{} if{} from {:?} {}{}",
+                    r.d,
+                    r.if_index,
+                    r.src,
+                    r.msg.as_ref().map(wire::summarize).unwrap_or_else(|| format!("<{} bytes unparsable>", r.bytes.len())),
+                    if r.corrupted { " (corrupted)" } else { "" }
+                );
+            }
+            L::Ev(i) => {
+                let e = &tr.events[*i];
+                println!("{t:>9} event d{} slot{} {}", e.d, e.slot, runner::short_ev(&e.ev));
+            }
+            L::Api(i) => println!("{t:>9} api   op#{} -> {:?}", tr.api[*i].op, tr.api[*i].outcome),
+            L::Fatal(i) => println!("{t:>9} FATAL {:?}", tr.fatal[*i]),
+        }
+    }
+    if lines.len() > max {
+        println!("... {} more lines (VERIF_TRACE_LINES)", lines.len() - max);
+    }
+    println!("steps={} sim_ms={} final={:?}", tr.steps.len(), tr.stats.sim_ms, tr.final_phase);
+}
+
+fn usage() -> ! {
+    eprintln!(
+        "usage: mdns-sim check <ID> [--tier quick|thorough] [--seed N] [--runs N] [--threads N] [--budget-s N] [-v]\n       mdns-sim replay <file> [--quiet]\n       mdns-sim gen <ID> <index> [--tier T] [--seed N] [--trace]\n       mdns-sim selftest determinism [--runs N] [--seed N] [--only ID]\n       mdns-sim list"
     );
-    s.op(20, Op::Browse { d: 1, ty: "_test._udp.local.".into(), slot: 2 });
-    s
+    std::process::exit(2)
 }
 
 fn main() {
@@ -48,18 +107,73 @@ fn main() {
         eprintln!("HARNESS ERROR: {e}");
         std::process::exit(2);
     }
-    let s = smoke();
-    let t0 = std::time::Instant::now();
-    let tr = world::execute(&s, 1);
-    let el = t0.elapsed();
-    for x in &tr.tx {
-        println!("t={} d={} if={:?} {}", x.t, x.d, x.if_index, x.msg.as_ref().map(wire::summarize).unwrap_or_default());
+    let args: Vec<String> = std::env::args().skip(1).collect();
+    if args.is_empty() {
+        usage();
     }
-    for e in &tr.events {
-        println!("ev t={} d={} slot={} {:?}", e.t, e.d, e.slot, e.ev);
+    let flag = |name: &str| -> Option<String> { args.iter().position(|a| a == name).and_then(|i| args.get(i + 1).cloned()) };
+    let has = |name: &str| args.iter().any(|a| a == name);
+    let seed: u64 = flag("--seed").or_else(|| std::env::var("VERIF_SEED").ok()).and_then(|s| s.parse().ok()).unwrap_or(1);
+    let tier = match flag("--tier").or_else(|| std::env::var("VERIF_TIER").ok()).as_deref() {
+        Some("thorough") => Tier::Thorough,
+        _ => Tier::Quick,
+    };
+    let threads: usize = flag("--threads")
+        .and_then(|s| s.parse().ok())
+        .unwrap_or_else(|| std::thread::available_parallelism().map(|n| n.get()).unwrap_or(4).min(16));
+    match args[0].as_str() {
+        "check" => {
+            let Some(id) = args.get(1) else { usage() };
+            let Some(p) = props::by_id(id) else {
+                eprintln!("HARNESS ERROR: no check for property {id}");
+                std::process::exit(2);
+            };
+            let o = runner::Opts {
+                tier,
+                seed,
+                threads,
+                runs: flag("--runs").and_then(|s| s.parse().ok()),
+                budget_s: flag("--budget-s").and_then(|s| s.parse().ok()),
+                verbose: has("-v"),
+            };
+            std::process::exit(runner::check(p.as_ref(), &o));
+        }
+        "replay" => {
+            let Some(f) = args.get(1) else { usage() };
+            std::process::exit(runner::replay(Path::new(f), has("--quiet")));
+        }
+        "gen" => {
+            let (Some(id), Some(idx)) = (args.get(1), args.get(2).and_then(|s| s.parse::<u64>().ok())) else { usage() };
+            let Some(p) = props::by_id(id) else { usage() };
+            let scn = p.gen(seed, idx, tier);
+            if has("--trace") {
+                let tr = world::execute(&scn, 1);
+                print_trace(&scn, &tr);
+                let (j, foreign) = runner::judge(p.as_ref(), &scn, &tr);
+                for f in foreign {
+                    println!("foreign: {f}");
+                }
+                println!("judged: nontrivial={} judgements={} probes={:?}", j.nontrivial, j.judgements, j.probes);
+                for v in j.violations {
+                    println!("violation rule={} {}", v.rule, v.detail);
+                }
+            } else {
+                println!("{}", serde_json::to_string_pretty(&scn).unwrap());
+            }
+        }
+        "selftest" => {
+            let runs = flag("--runs").and_then(|s| s.parse().ok()).unwrap_or(50);
+            let mut ps = props::all();
+            if let Some(only) = flag("--only") {
+                ps.retain(|p| p.id() == only);
+            }
+            std::process::exit(runner::selftest_determinism(&ps, runs, seed, threads));
+        }
+        "list" => {
+            for p in props::all() {
+                println!("{} quick={} thorough={}", p.id(), p.count(Tier::Quick), p.count(Tier::Thorough));
+            }
+        }
+        _ => usage(),
     }
-    println!("fatal: {:?}", tr.fatal);
-    println!("steps={} wall={:?} fp={:x}", tr.steps.len(), el, tr.fingerprint());
-    let tr2 = world::execute(&s, 1);
-    println!("fp2={:x}", tr2.fingerprint());
 }
